@@ -677,7 +677,13 @@ func sameNameFeatureCases() []caseRec {
 		"none":         "container top { uses b:g; }",
 		"on-uses-of-local-grouping": "grouping lg { uses b:g; } container top { uses lg { if-feature x; } }",
 	}
-	for site, body := range sites {
+	var siteNames []string
+	for site := range sites {
+		siteNames = append(siteNames, site)
+	}
+	sort.Strings(siteNames) // (every worker must build the same list: case ids carry the index)
+	for _, site := range siteNames {
+		body := sites[site]
 		for mask := 0; mask < 4; mask++ {
 			var feats []string
 			ax, bx := mask&1 != 0, mask&2 != 0
